@@ -1130,12 +1130,15 @@ class TestResult(unittest.TestResult):
     def stopTest(self, test):
         # Discard what a test without failure or error left in the buffers
         # and make sure the original streams are back in any case.
-        self._restoreStdStreams()
-        if self.options.buffer:
-            # Also when the test itself replaced them after its output
-            # had already been reported (like unittest's own --buffer).
-            sys.stdout = self._original_stdout
-            sys.stderr = self._original_stderr
+        try:
+            self._restoreStdStreams()
+        finally:
+            if self.options.buffer:
+                # Also when the test itself replaced them after its output
+                # had already been reported (like unittest's own --buffer),
+                # or closed the capture stream so that it cannot be read.
+                sys.stdout = self._original_stdout
+                sys.stderr = self._original_stderr
         self.testTearDown()
         # Without clearing, cyclic garbage referenced by the test
         # would be reported in the following test.
